@@ -9,7 +9,9 @@ RULE = ("one evaluation = one Execute of a real FunctionJob / ShellJob / CurlJob
         "executions with different outcomes on ONE job object (`jobs seq …`: all accessors, Execute's return value, open/closed response bodies after each "
         "step). Compared exactly with the Lean model (level 1) and judged independently against the property (level 2): status OK iff nil error / exit 0 / "
         "2xx-3xx, Execute returns the underlying error, accessors = the last execution, callback once per execution, fields of ONE execution after "
-        "8x40 concurrent executions, cancellation aborts a sleeping function / `sleep 5` / a hanging HTTP handler within 2 s, and goroutines / descriptors / "
+        "8x40 concurrent executions, 2..4 OVERLAPPING executions of one unwrapped FunctionJob with a scripted (channel-synchronised) completion order (all orders "
+        "of 2 and 3 with every nil/error combination, seeded orders of 4: after each completion the accessors are those of the execution that completed last, "
+        "whichever started last), cancellation aborts a sleeping function / `sleep 5` / a hanging HTTP handler within 2 s, and goroutines / descriptors / "
         "child processes / open bodies after 100 vs 300 sequential + 8x40 concurrent executions differ by at most a small constant. "
         "non-trivial = every evaluation executes real code; distinct by protocol line")
 
